@@ -353,8 +353,12 @@ Matrix::Matrix(std::vector<double> diagonal_entries)
 Matrix::Matrix(std::vector<std::vector<Matrix>> block_matrices)
 {
 	// 1. Check dimensions of block matrices
-	bool valid_dimension = true;
-	for(unsigned int row = 0; row < block_matrices.size(); row++)
+	// (every block row needs the same, non-zero number of blocks before neighbouring blocks can be compared)
+	bool valid_dimension = !block_matrices.empty();
+	for(unsigned int row = 0; valid_dimension && row < block_matrices.size(); row++)
+		if(block_matrices[row].empty() || block_matrices[row].size() != block_matrices[0].size())
+			valid_dimension = false;
+	for(unsigned int row = 0; valid_dimension && row < block_matrices.size(); row++)
 		for(unsigned int col = 0; col < block_matrices[row].size(); col++)
 		{
 			if(row != 0 && block_matrices[row][col].Columns() != block_matrices[row - 1][col].Columns())
